@@ -66,6 +66,14 @@ theorem render_at_min_fits (cfg : Cfg) (ok : CfgOk cfg) (r : R) (o : Opts) (avai
   have := C01.rendered_lines_fit cfg ok r o m.toNat (by omega) hd l hl
   omega
 
+/-- **group_measure_is_max.**  A fitted `RenderGroup` with at least one member reports exactly the largest minimum and the largest
+maximum among its members' measurements (`measure_renderables`; the clamping of `Measurement.get` changes nothing because every
+member's measurement is already normal). -/
+theorem group_measure_is_max (cfg : Cfg) (items : List R) (w : Nat) (hne : items ≠ []) :
+    measure cfg (.group true items) w =
+      ⟨listMax ((measureL cfg items w).map (·.minimum)), listMax ((measureL cfg items w).map (·.maximum))⟩ :=
+  Layout.group_measure_is_max cfg items w hne
+
 /-! ## text -/
 
 /-- **text_measure_spec.**  For a text that is not all whitespace, `Text.__rich_measure__` reports: as maximum the width of its
@@ -101,8 +109,8 @@ example : textRichMeasure cwR (Text.new Variant.repaired "hello wörld\nあい x
 /-- `RenderGroup(ProgressBar(width=5), Text("ccc dd"))`: the group reports (5, 6) at 9 cells available; rendered at its maximum 6
 the bar and the text share one line of 11 cells — the measurement of a group containing a `ProgressBar` is unsound. -/
 theorem known_group_with_progressbar_measure_unsound :
-    measureGet C01.wCfg (.group true [C01.wBar, C01.wText "ccc dd"]) 9 = ⟨5, 6⟩ ∧
-    (renderedLines C01.wCfg (.group true [C01.wBar, C01.wText "ccc dd"]) {} 6).map (lineLength cwR) = [11] := by decide +kernel
+    measureGet C01.nowCfg (.group true [C01.wBar, C01.wText "ccc dd"]) 9 = ⟨5, 6⟩ ∧
+    (renderedLines C01.nowCfg (.group true [C01.wBar, C01.wText "ccc dd"]) {} 6).map (lineLength cwR) = [11] := by decide +kernel
 
 /-- non-vacuity of `render_at_max_fits`: a table measured at 40 cells reports a maximum at or above its structural minimum and
 renders exactly that wide -/
@@ -110,7 +118,7 @@ def exTable : R :=
   .table { box := some 0 } [.mk {} (C01.wText "name") (C01.wText "") [C01.wText "alpha beta", C01.wText "日本"],
                             .mk {} (C01.wText "n") (C01.wText "") [C01.wText "1", C01.wText "22"]]
 
-example : measureGet C01.wCfg exTable 40 = ⟨14, 19⟩ ∧ smin cwR exTable = 10 := by decide +kernel
-example : (renderedLines C01.wCfg exTable {} 19).map (lineLength cwR) = [19, 19, 19, 19, 19, 19] := by decide +kernel
+example : measureGet C01.nowCfg exTable 40 = ⟨14, 19⟩ ∧ smin cwR exTable = 10 := by decide +kernel
+example : (renderedLines C01.nowCfg exTable {} 19).map (lineLength cwR) = [19, 19, 19, 19, 19, 19] := by decide +kernel
 
 end RichModel.C09
